@@ -478,15 +478,19 @@ LockInv(st) == KeysUnique(st) /\ HolderExists(st) /\ LinksLive(st) /\ QueriesLiv
 
 (* step properties *)
 \* C04: a session that ends releases/deletes everything it held, in that same step
-EndsCascade(pre, post) ==
+\* multi: the step is a transaction of several operations - an earlier operation may have released the key (unlock by
+\* the holder) before the session ended, in which case a delete-behaviour session no longer owns it
+EndsCascadeM(pre, post, multi) ==
   \A s \in pre.sess : ~SessHas(post, s.id) =>
      /\ \A e \in pre.kv : e.s = s.id =>
-          IF s.beh = "delete" THEN ~\E x \in post.kv : x.k = e.k /\ x.ci = e.ci
+          IF s.beh = "delete" THEN \/ ~\E x \in post.kv : x.k = e.k /\ x.ci = e.ci
+                                   \/ multi /\ \E x \in post.kv : x.k = e.k /\ x.s = ""
           ELSE \/ \E x \in post.kv : x.k = e.k /\ x.s = ""     \* (lock counter: judged by state equality with ApplyAt)
                \/ ~KvHas(post, e.k)                   \* deleted by another op of the same step
                \/ \E x \in post.kv : x.k = e.k /\ x.ci # e.ci
      /\ ~\E m \in post.schk : m.sess = s.id
      /\ ~\E q \in post.pq : q.sess = s.id
+EndsCascade(pre, post) == EndsCascadeM(pre, post, FALSE)
 \* C03: create index stable while the key exists; lock counter discipline
 CreateIndexStable(pre, post, idx) ==
   \A e \in pre.kv : \A x \in post.kv : x.k = e.k => (x.ci = e.ci \/ x.ci = idx)
